@@ -727,6 +727,9 @@ def models(draw, feats=(), max_classes=5, doc_type=None):
                 sc['sweeten'] = [['seq_to_map', 'items', pn, None]]
             if draw(st.booleans()):
                 sc['params'].append({'name': 'note', 'type': 'any', 'default': ['none']})
+            if draw(st.booleans()):
+                # a second way to reach one of the items (e.g. "the current one")
+                sc['params'].append({'name': 'first', 'type': ['opt', ['ref', xn]], 'default': ['none']})
             classes.append(sc)
             objs.append('S')
     force_doc = None
